@@ -79,13 +79,28 @@ def NONE():
 
 
 class MByte:
-    """k-th byte of a multi-byte character (only its identity matters)"""
+    """k-th byte of a multi-byte character; `value()` is its UTF-8 byte as an int or a 32-bit term of the code point"""
     __slots__ = ('ch', 'k', 'n')
 
     def __init__(s, ch, k, n):
         s.ch = ch
         s.k = k
         s.n = n
+
+    def value(s):
+        cp = s.ch[0]
+        n, k = s.n, s.k
+        shift = 6 * (n - 1 - k)
+        if not isinstance(cp, z3.ExprRef):
+            if k == 0:
+                lead = {2: 0xC0, 3: 0xE0, 4: 0xF0}[n]
+                return lead | (cp >> shift)
+            return 0x80 | ((cp >> shift) & 0x3F)
+        part = z3.LShR(cp, shift) if shift else cp
+        if k == 0:
+            lead = {2: 0xC0, 3: 0xE0, 4: 0xF0}[n]
+            return z3.BitVecVal(lead, 32) | part
+        return z3.BitVecVal(0x80, 32) | (part & z3.BitVecVal(0x3F, 32))
 
 
 class StrBuf:
